@@ -15,6 +15,7 @@ package helper
 func Shift[T any](c <-chan T, count int, fill T) <-chan T {
 	result := make(chan T, cap(c)+count)
 
+	VerifStage("Shift", count, []any{c}, []any{result})
 	go func() {
 		for i := 0; i < count; i++ {
 			result <- fill
